@@ -1,12 +1,18 @@
 """C16 Shards follow their xorbs, and upload failures are never swallowed."""
-from checks import up_common
+import json
+
+from checks import pf_common, up_common
 
 PROPS = ["C16"]
 
 
 def check(ctx):
+    # the worker pool under upload_async / download_async: results in input order, a failing closure is reported
+    pf_common.run(ctx)
     up_common.run_all(ctx, PROPS, faults=2)
 
 
 def replay(ctx, path):
+    if json.loads(open(path).readline()).get("ev") == "PfSetup":
+        return 0 if pf_common.validate(ctx, path, "replay") else 1
     return 0 if up_common.validate(ctx, path, "replay", PROPS) else 1
